@@ -1184,6 +1184,19 @@ class Sym:
                 x = strip(inner[2][0])
                 cont = (rel == "in" and vs == [0]) or (rel == "notin" and vs == [1])
                 brk = (rel == "in" and vs == [1]) or (rel == "notin" and vs == [0])
+                if cont and x[0] == "call" and not getattr(self, "unique_locals", False):
+                    # `helper(args)?` continues iff every `?` inside the private helper continues
+                    from .terms import try_helper_summary, subst_params
+                    out_, todo, n_ = [], [x], 0
+                    while todo and n_ < 32:
+                        y = strip(todo.pop(0))
+                        n_ += 1
+                        summ = try_helper_summary(self.prog, y[1]) if y[0] == "call" else None
+                        if summ is None:
+                            out_.append(("ok", self.name(y), y))
+                        else:
+                            todo = [subst_params(z, y[2]) for z in summ[1]] + todo
+                    return out_
                 if cont or brk:
                     return [("ok" if cont else "err", self.name(x), x)]
             tyname = self.enum_of(ds[1])
